@@ -294,10 +294,17 @@ class Switch(Generic[R], GenerativeFunction[R]):
         rets = multi_switch(new_idx, fs, f_args)
 
         subtraces = list(t[0] for t in rets)
-        score, weight, retdiff = tree_choose(
-            new_idx, list((tr.get_score(), w, rd) for tr, w, rd, _ in rets)
+        score, weight, retval = tree_choose(
+            new_idx,
+            list((tr.get_score(), w, Diff.tree_primal(rd)) for tr, w, rd, _ in rets),
         )
-        retval: R = Diff.tree_primal(retdiff)
+        # The branches' retdiffs can carry different change tags (the tags are part of the
+        # pytree structure), so they cannot be selected between: the selected return value is
+        # tagged `NoChange` only if no branch reports a change.
+        if all(Diff.static_check_no_change(rd) for _, _, rd, _ in rets):
+            retdiff = Diff.no_change(retval)
+        else:
+            retdiff = Diff.unknown_change(retval)
 
         if Diff.tree_tangent(idx_diff) == UnknownChange:
             weight += score - trace.get_score()
